@@ -467,3 +467,35 @@ func checkTickerPeriods(c *RuleCtx) {
 	}
 	c.Min["R10.12"] = 1
 }
+
+// R10.4 (cont.): a retained (non-positive) score is retained without its first-delivery credit — "retains
+// non-positive scores to dissuade attacks on the score function": for every topic of the departing peer, whether or
+// not it was in the mesh there, the first-delivery counter is zeroed and the peer is marked out of the mesh.
+func checkRetentionResets(c *RuleCtx) {
+	p := c.P
+	f := c.MustFn("R10.4", "(*peerScore).OnClosedOutboundStream")
+	if f == nil {
+		return
+	}
+	rs := p.RangesOver(f, func(v *V) bool { return v.IsField("peerStats.topics") })
+	if len(rs) == 0 {
+		c.Undecided("R10.4", f.Name, "per-topic reset on retention", f.Decl, "no loop over the departing peer's topics")
+		return
+	}
+	for _, r := range rs {
+		for _, want := range []struct{ field, val, what string }{
+			{"topicStats.firstMessageDeliveries", "0", "first-delivery credit dropped for every topic"},
+			{"topicStats.inMesh", "false", "marked out of the mesh for every topic"},
+		} {
+			ok, why := p.LoopBodyMust(f, r, nil, func(n ast.Node) bool {
+				for _, s := range p.StoresTo2(f, want.field) {
+					if s.Kind == "assign" && contains(n, s.Node) && s.RHS != nil && p.R(f).Val(s.RHS).IsConst(want.val) {
+						return true
+					}
+				}
+				return false
+			})
+			c.Check(ok, "R10.4", f.Name, "retained score: "+want.what, r, why, "an iteration over the departing peer's topics can complete without `"+shortFn(want.field)+" = "+want.val+"` (for instance only for topics where the peer was in the mesh): the retained score keeps credit it should have lost: "+why)
+		}
+	}
+}
